@@ -757,6 +757,95 @@ theorem C13_svf_bounded_input_bounded_state (s : Filter ℝ) (dt : ℝ) (hg : 0 
   have hlow := (hW (runTick (Filter.tickV s dt) v xs).1).1
   linarith
 
+/-- the per-mode constant of `C13_svf_output_bounded` -/
+def svfModeConst : FilterMode → ℝ
+  | .lowPass => 8
+  | .bandPass => 3
+  | .highPass => 63
+  | .notch => 26
+
+/-- **outputs are bounded by state and input**: for every integrator state and input frame the
+    output frame of one tick (the mode's tap, blended with the dry input by the clamped mix)
+    satisfies `|out|² ≤ c·(E + |x|²) + |x|²` with `c` = 8 (low-pass), 3 (band-pass), 63 (high-pass),
+    26 (notch) — squared sizes summed over both channels, `E` the integrator energy.  Together
+    with `C13_svf_bounded_input_bounded_state`: bounded input gives bounded output for ever. -/
+theorem C13_svf_output_bounded (s : Filter ℝ) (dt : ℝ) (hg : 0 < Filter.g s.cutoff.raw dt)
+    (v : Frame ℝ × Frame ℝ) (x : Frame ℝ) :
+    frameSq (Filter.tickV s dt v x).2 ≤ svfModeConst s.mode * (svfEnergy v + frameSq x) + frameSq x := by
+  have hk := s.kRest_pos
+  have hk2 := s.kRest_le_two
+  have hD : (1 + Filter.g s.cutoff.raw dt * (Filter.g s.cutoff.raw dt + s.kRest)) ≠ 0 := by positivity
+  have ha : 1 / (1 + Filter.g s.cutoff.raw dt * (Filter.g s.cutoff.raw dt + s.kRest))
+      * (1 + Filter.g s.cutoff.raw dt * (Filter.g s.cutoff.raw dt + s.kRest)) = 1 := by field_simp
+  have hl := svf_taps_sq _ _ _ v.1.left v.2.left x.left ha hg hk hk2
+  have hr := svf_taps_sq _ _ _ v.1.right v.2.right x.right ha hg hk hk2
+  have hm := clamp01_mem s.mix.raw
+  unfold Filter.kRest at hl hr
+  unfold Filter.tickV Filter.tick frameSq svfEnergy
+  simp only [Filter.coefs_real, svfTick_real, dryWet_real]
+  cases s.mode
+  all_goals
+    simp only [Filter.modeOutput, svfModeConst, Frame.sub, Frame.scale, r32_real]
+    refine le_trans (add_le_add (svf_blend_sq _ _ _ hm.1 hm.2) (svf_blend_sq _ _ _ hm.1 hm.2)) ?_
+    linarith [hl.1, hl.2.1, hl.2.2.1, hl.2.2.2, hr.1, hr.2.1, hr.2.2.1, hr.2.2.2]
+
+theorem svfModeConst_nonneg (m : FilterMode) : 0 ≤ svfModeConst m := by
+  cases m <;> simp [svfModeConst]
+
+/-- **bounded input, bounded output, for ever**: if every input frame has `|x|² ≤ B2` then every
+    output frame of the run — of any length, from any integrator state `v` — satisfies
+    `|out|² ≤ c·(3·E₀ + 2·(C/λ)·B2 + B2) + B2`, with `c` the mode constant of
+    `C13_svf_output_bounded` and `λ`, `C` those of `C13_svf_strict_contraction`. -/
+theorem C13_svf_bibo (s : Filter ℝ) (dt : ℝ) (hg : 0 < Filter.g s.cutoff.raw dt)
+    (v : Frame ℝ × Frame ℝ) (xs : List (Frame ℝ)) (B2 : ℝ) (hB2 : 0 ≤ B2)
+    (hB : ∀ x ∈ xs, frameSq x ≤ B2) :
+    ∀ o ∈ (runTick (Filter.tickV s dt) v xs).2,
+      frameSq o ≤ svfModeConst s.mode
+          * (3 * svfEnergy v
+              + 2 * (svfC (Filter.g s.cutoff.raw dt) s.kRest / svfLam (Filter.g s.cutoff.raw dt) s.kRest) * B2
+              + B2) + B2 := by
+  obtain ⟨hl0, hl1, hC, hW, hstep, -⟩ := C13_svf_strict_contraction s dt hg
+  set lam := svfLam (Filter.g s.cutoff.raw dt) s.kRest with hlam
+  set C := svfC (Filter.g s.cutoff.raw dt) s.kRest with hCdef
+  have hE0 := svfEnergy_nonneg v
+  have hmul : lam * (C / lam * B2) = C * B2 := by field_simp
+  have hM : C * B2 ≤ lam * (3 / 2 * svfEnergy v + C / lam * B2) := by
+    have : 0 ≤ lam * (3 / 2 * svfEnergy v) := by positivity
+    nlinarith
+  have hq : 0 ≤ C / lam * B2 := by positivity
+  have hc := svfModeConst_nonneg s.mode
+  refine runTick_out_inv (Filter.tickV s dt)
+    (fun u => svfW2 s.kRest u ≤ 3 / 2 * svfEnergy v + C / lam * B2) (fun x => frameSq x ≤ B2) _
+    ?_ ?_ xs hB v (by linarith [(hW v).2])
+  · intro u f hu hf
+    have h1 := hstep u f
+    have h3 : (1 - lam) * svfW2 s.kRest u ≤ (1 - lam) * (3 / 2 * svfEnergy v + C / lam * B2) :=
+      mul_le_mul_of_nonneg_left hu (by linarith)
+    have h4 : C * frameSq f ≤ C * B2 := mul_le_mul_of_nonneg_left hf hC
+    linarith
+  · intro u f hu hf
+    have h1 := C13_svf_output_bounded s dt hg u f
+    have h2 := (hW u).1
+    have h3 : svfModeConst s.mode * (svfEnergy u + frameSq f)
+        ≤ svfModeConst s.mode * (2 * (3 / 2 * svfEnergy v + C / lam * B2) + B2) :=
+      mul_le_mul_of_nonneg_left (by linarith) hc
+    have e : svfModeConst s.mode * (2 * (3 / 2 * svfEnergy v + C / lam * B2) + B2)
+        = svfModeConst s.mode * (3 * svfEnergy v + 2 * (C / lam) * B2 + B2) := by ring
+    linarith
+
+/-- the same through `process` itself: a filter at rest (in one call; by `C13_filter_chunk_free` in
+    any slicing) turns a bounded input into a bounded output, whatever its integrators held. -/
+theorem C13_svf_bibo_process (s : Filter ℝ) (h : s.Stagnant) (dt : ℝ) (info : Info ℝ)
+    (hg : 0 < Filter.g s.cutoff.raw dt) (xs : List (Frame ℝ)) (B2 : ℝ) (hB2 : 0 ≤ B2)
+    (hB : ∀ x ∈ xs, frameSq x ≤ B2) :
+    ∀ o ∈ (s.process xs dt info).2,
+      frameSq o ≤ svfModeConst s.mode
+          * (3 * svfEnergy (Filter.ic s)
+              + 2 * (svfC (Filter.g s.cutoff.raw dt) s.kRest / svfLam (Filter.g s.cutoff.raw dt) s.kRest) * B2
+              + B2) + B2 := by
+  rw [Filter.process_stagnant s h]
+  exact C13_svf_bibo s dt hg (s.ic1eq, s.ic2eq) xs B2 hB2 hB
+
 /-- non-vacuity: a 1 kHz filter at 48 kHz with resonance 0.5 has `g > 0`, is at rest, and the
     bounded-input premise is met by a concrete signal -/
 example : 0 < Filter.g (Filter.new .lowPass (.fixed 1000) (.fixed 0.5) (.fixed 1) : Filter ℝ).cutoff.raw (1 / 48000) :=
